@@ -12,12 +12,14 @@
     mixed_stream_not_idempotent
     explicit_default_not_undeclared
     encode_roundtrip_text encode_roundtrip_attr charref_roundtrip
+    encode_every_codec
     attr_tab_lf_cr_not_recovered text_cr_not_recovered decl_encoding_echoed
 -/
 import Genshi.Lemmas.XmlRefs
 import Genshi.Lemmas.XmlFlatD
 import Genshi.Lemmas.XmlEmptyTag
 import Genshi.Lemmas.XmlEncode
+import Genshi.Lemmas.XmlEncodeB
 import Genshi.Lemmas.XmlIdem
 import Genshi.Lemmas.XmlIdemE
 import Genshi.Lemmas.XmlTxtB
@@ -37,13 +39,17 @@ theorem gen_tables_as_modelled :
     Genshi.Gen.Xml.encodeProbe = charRef (Char.ofNat 0x20AC) := by
   refine ⟨by decide, by decide, by decide⟩
 
-/-- Every codec of the property (as extracted from the running interpreter)
-    represents all of ASCII, which is what the encoding theorems assume. -/
+/-- Every codec in the translator's table (as probed in the running interpreter:
+    every scalar value goes through the codec's encoder; utf-8/16/32, ascii,
+    latin-1, iso-8859-2, iso-8859-7, iso-8859-15, cp1251, cp1252, cp437, koi8-r, mac-roman)
+    represents all of ASCII, which is what the encoding theorems assume.  The
+    check is by evaluation of the generated table (`coversAscii`), lifted by
+    `asciiRep_of_covers`; a codec added to the table is checked on the next run. -/
 theorem extracted_codecs_ascii :
     ∀ e ∈ Genshi.Gen.Xml.encodings, AsciiRep (inRanges e.2) := by
-  intro e he c hc
-  simp only [Genshi.Gen.Xml.encodings, List.mem_cons, List.mem_nil_iff, or_false] at he
-  rcases he with rfl | rfl | rfl | rfl <;> simp [inRanges] <;> omega
+  have h : Genshi.Gen.Xml.encodings.all (fun e => coversAscii e.2) = true := by decide
+  intro e he
+  exact asciiRep_of_covers e.2 (List.all_eq_true.mp h e he)
 
 /-- The preferred-prefix table a default `NamespaceFlattener()` holds (as extracted)
     is one the theorems accept. -/
@@ -406,6 +412,45 @@ theorem encode_roundtrip_attr (rep : Char → Bool) (hr : AsciiRep rep) (s : Str
     decodeAttr (encodeText rep (escapePy true s)) = some s := by
   rw [escapePy_eq_spec]
   exact decodeGo_encode_escape rep hr true true s hx (fun _ => hws)
+
+/-- **encode, for every output encoding of the table.**  For each codec the
+    translator probed (`Genshi.Gen.Xml.encodings`: the set of scalar values the
+    codec's own encoder accepts) and every string of XML characters, what
+    `encode` makes of escaped character data with `xmlcharrefreplace`
+      * lies inside the codec's repertoire (the codec cannot refuse it),
+      * has every character the codec has as itself and every character it
+        lacks as `&#N;` with `N` the scalar value in decimal,
+      * and is read back by an XML reader as the original string;
+    the same for attribute values outside TAB/LF/CR. -/
+theorem encode_every_codec :
+    ∀ e ∈ Genshi.Gen.Xml.encodings, ∀ s : Str, s.all isXmlChar = true →
+      (encodeText (inRanges e.2) (escapePy false s)).all (inRanges e.2) = true ∧
+      (∀ c : Char, inRanges e.2 c = false →
+        encodeText (inRanges e.2) [c] = '&' :: '#' :: dec c.toNat ++ [';']) ∧
+      (∀ c : Char, inRanges e.2 c = true → encodeText (inRanges e.2) [c] = [c]) ∧
+      decodeText (encodeText (inRanges e.2) (escapePy false s)) = some s ∧
+      ((∀ c ∈ s, c ≠ '\t' ∧ c ≠ '\n' ∧ c ≠ '\r') →
+        decodeAttr (encodeText (inRanges e.2) (escapePy true s)) = some s) := by
+  intro e he s hx
+  have hr := extracted_codecs_ascii e he
+  refine ⟨encodeText_all_rep _ hr _, fun c hc => encodeText_unrep _ c hc,
+    fun c hc => by simp [encodeText, hc], encode_roundtrip_text _ hr s hx,
+    fun hws => encode_roundtrip_attr _ hr s hx hws⟩
+
+/-- the euro sign under three codecs of the table: latin-1 lacks it, cp1252 and
+    iso-8859-15 have it; Cyrillic under koi8-r -/
+example :
+    (Genshi.Gen.Xml.encodings.lookup ['l','a','t','i','n','-','1']).map (fun r => encodeText (inRanges r) [Char.ofNat 0x20AC]) =
+      some ['&','#','8','3','6','4',';'] ∧
+    (Genshi.Gen.Xml.encodings.lookup ['c','p','1','2','5','2']).map (fun r => encodeText (inRanges r) [Char.ofNat 0x20AC]) =
+      some [Char.ofNat 0x20AC] ∧
+    (Genshi.Gen.Xml.encodings.lookup ['i','s','o','-','8','8','5','9','-','1','5']).map
+        (fun r => encodeText (inRanges r) [Char.ofNat 0x20AC, Char.ofNat 0xA4]) =
+      some [Char.ofNat 0x20AC, '&','#','1','6','4',';'] ∧
+    (Genshi.Gen.Xml.encodings.lookup ['k','o','i','8','-','r']).map
+        (fun r => encodeText (inRanges r) [Char.ofNat 0x416, Char.ofNat 0xE9]) =
+      some [Char.ofNat 0x416, '&','#','2','3','3',';'] := by
+  refine ⟨by decide, by decide, by decide, by decide⟩
 
 /-- A character reference is read back as the same scalar, in both modes. -/
 theorem charref_roundtrip (attr : Bool) (c : Char) (hx : isXmlChar c = true) (rest : Str) :
